@@ -56,9 +56,13 @@ FIELDS = {
 # planning
 # ----------------------------------------------------------------------------------------------
 
-def _gen_op(r: Any, doc: dict[str, Any], present: list[str], ticks: list[int]) -> dict[str, Any]:
-    kind = r.choice(["getitem", "getitem", "getitem2", "nps", "nps", "ts_at", "ts_at_no", "seq",
-                     "render", "render", "compare", "hash", "prop", "assign", "tickq", "iterate"])
+OP_KINDS = ["getitem", "getitem", "getitem2", "nps", "nps", "ts_at", "ts_at_no", "seq",
+            "render", "render", "compare", "hash", "prop", "assign", "tickq", "iterate"]
+
+
+def _gen_op(r: Any, doc: dict[str, Any], present: list[str], ticks: list[int],
+            kinds: list[str] | None = None) -> dict[str, Any]:
+    kind = r.choice(kinds or OP_KINDS)
     inst = r.choice(gen.INSTRUMENT_NAMES)
     diff = r.choice(gen.DIFFICULTY_NAMES)
     if present and r.random() < 0.5:
@@ -146,9 +150,15 @@ def make_plan(seed: int, tier: str, index: int) -> dict[str, Any]:
     ticks = sorted({t for t, _ in doc["tempos"]} | {gr["tick"] for tr in doc["tracks"] for gr in tr[1]}
                    | {0})
     n_clients = p.choice([1, 1, 2, 2, 3, 4])
+    # swarm style: most runs enable only a random subset of the operation kinds, so that rare
+    # combinations (e.g. two clients both issuing tick-to-time queries) are not diluted
+    kinds = None
+    if p.random() < 0.6:
+        kinds = p.sample(sorted(set(OP_KINDS)), p.randint(2, 5))
     clients = []
     for _ in range(n_clients):
-        clients.append([_gen_op(p, doc, present, ticks) for _ in range(p.randint(3, 25 if n_clients < 3 else 12))])
+        clients.append([_gen_op(p, doc, present, ticks, kinds)
+                        for _ in range(p.randint(3, 25 if n_clients < 3 else 12))])
     total_ops = sum(len(c) for c in clients)
     if n_clients == 1:
         schedule: dict[str, Any] = {"mode": "sequential", "seed": s.getrandbits(32)}
